@@ -6,7 +6,7 @@ from .common import *
 
 META = {
     "level": "other",
-    "explanation": "Polarity and sibling-agreement check of the enforcing classes: (R1) Const._parse raises ConstError exactly on the paths where the parsed value differs from the constant and returns the parsed value otherwise; Const._build refuses any obj outside (None, value) and always builds self.value, never obj; (R2) Adapter wraps _decode around the sub-parse and _encode before the sub-build, SymmetricAdapter._encode is _decode, Validator._decode raises ValidationError exactly when _validate is falsy and returns obj unchanged, ExprValidator installs the user predicate, OneOf/NoneOf are `in`/`not in`; (R3) Check and StopIf have identical parse and build summaries (evaluate, test polarity, exception class); (R4) every label-table lookup of Enum/FlagsEnum/Mapping sits in a handler that turns KeyError into MappingError(path) (or, Enum parse, falls back to EnumInteger(obj) so unmapped integers of any size survive), ints pass Enum/FlagsEnum build unchanged, FlagsEnum refuses other types, and the decode table is built in __init__ as the inversion of the very mapping that feeds the encode table; (R5) every handler in the package that can swallow ExplicitError is preceded in the same try by `except ExplicitError: raise`, and Error._parse/_build raise ExplicitError unconditionally. R4 also: FlagsEnum._encode combines labels with bitwise or in the string and the dict form; R5 also scans every try statement of every generated template variant for the same discipline.",
+    "explanation": "Polarity and sibling-agreement check of the enforcing classes: (R1) Const._parse raises ConstError exactly on the paths where the parsed value differs from the constant and returns the parsed value otherwise; Const._build refuses any obj outside (None, value) and always builds self.value, never obj; (R2) Adapter wraps _decode around the sub-parse and _encode before the sub-build, SymmetricAdapter._encode is _decode, Validator._decode raises ValidationError exactly when _validate is falsy and returns obj unchanged, ExprValidator installs the user predicate, OneOf/NoneOf are `in`/`not in`; (R3) Check and StopIf have identical parse and build summaries (evaluate, test polarity, exception class); (R4) every label-table lookup of Enum/FlagsEnum/Mapping sits in a handler that turns KeyError into MappingError(path) (or, Enum parse, falls back to EnumInteger(obj) so unmapped integers of any size survive), ints pass Enum/FlagsEnum build unchanged, FlagsEnum refuses other types, and the decode table is built in __init__ as the inversion of the very mapping that feeds the encode table; (R5) every handler in the package that can swallow ExplicitError is preceded in the same try by `except ExplicitError: raise`, and Error._parse/_build raise ExplicitError unconditionally. R4 also: FlagsEnum._encode combines labels with bitwise or in the string and the dict form; R5 also scans every try statement of every generated template variant for the same discipline. (R6) the generated parse/build code of Const, Enum, FlagsEnum, Mapping, Check, Error, Select, Peek agrees with the interpreter methods (shared with C04.R3/R8).",
     "undecided": "That user predicates and sub-construct equality behave sensibly; exhaustive value-level agreement of Enum tables for a given mapping (follows from the inversion shape only if the mapping is injective).",
     "trusted_base": ["python ast (3.12)", "sa.summ summariser", "exception class hierarchy from the source model"],
     "assumptions": ["generated code: parse_const/parse_check polarity is checked by C04"],
@@ -221,6 +221,10 @@ def run(ctx):
     n5 = check_swallow(ctx, M, S)
     nt = check_template_swallow(ctx, M, S)
     ctx.floor("C13.R5", 11)
+    # ---------------------------------------------------------------- R6 the compiled forms of the validating / mapping classes (shared with C04.R3)
+    from . import C04
+    C04.shared_obligations(ctx, "C13.R6", {"Const", "Enum", "FlagsEnum", "Mapping", "Check", "Error", "Select", "Peek", "Flag"})
+    ctx.floor("C13.R6", 10)
     for meth in ("_parse", "_build"):
         fi, paths = own_method_paths(ctx, "Error", meth)
         ok = len(paths) == 1 and paths[0].outcome[0] == "raise" and paths[0].outcome[1].get("cls") == "ExplicitError" and not paths[0].of("ASSUME")
